@@ -1391,7 +1391,7 @@ def amap_reduce(blocks):
         for j, b in enumerate(blocks):
             if i == j or repr(a[2:]) != repr(b[2:]):
                 continue
-            peeled = a[1] == a[0] + 1 and a[0] == b[0]        # the first row of b's loop, seen concretely in the peeled pass
+            peeled = a[1] == a[0] + 1 and (a[0] == b[0] or a[0] == b[0] + 1)     # first / second row of b's loop, seen concretely in the peeled passes
             if ((aff_le(b[0], a[0]) and aff_le(a[1], b[1])) or peeled) and (repr(a[:2]) != repr(b[:2]) or j < i):
                 covered = True
                 break
